@@ -53,6 +53,27 @@ def run(chk):
     p = core.load_program("all")
     chk.configs = ["all-features"]
     chk.explanation = __doc__
+    # shared clause (C07 R7): what an assertion writes back is the stored record with only its counter advanced — the
+    # user handle included, or later assertions stop reporting it
+    from .framework import borrow
+    borrow(chk, "C07", ["R7|"], "C11: the stored user handle survives the counter write-back of an assertion")
+    # capability truthfulness through the lock wrappers: each tokio wrapper impl of CredentialStore has its own
+    # get_info that asks the wrapped store exactly once (a provided default would report a constant capability)
+    _st = [t for t in p.traits.values() if t["path"].startswith("passkey_authenticator::") and t["path"].endswith("::CredentialStore")]
+    if chk.require("R0 wrappers report the wrapped store's capability", "R0|trait", len(_st) == 1, "passkey_authenticator", "trait CredentialStore not found"):
+        _wr = [im for im in p.impls_of(trait=_st[0]["path"]) if "tokio::sync" in im["self_ty"]]
+        if p.config != "default":
+            chk.require("R0 wrappers report the wrapped store's capability", "R0|wrappers", len(_wr) >= 4, _st[0]["path"], "expected 4 lock-wrapper impls (counted by hand), found %d" % len(_wr))
+        import re as _re
+        for im in _wr:
+            stn = _re.sub(r"\b[a-z_0-9]+::", "", im["self_ty"])
+            gi = [it for it in im["items"] if it["name"] == "get_info" and it["kind"] == "AssocFn"]
+            co = p.async_body(p.bodies.get(gi[0]["def"])) if gi else None
+            inner = names.calls_to(co, "CredentialStore::get_info") if co is not None else []
+            if co is not None:
+                chk.touched(co)
+            chk.ob("R0 wrappers report the wrapped store's capability", "R0|%s|get_info-forwarded" % stn, bool(gi) and len(inner) == 1, im["def"],
+                   "own get_info: %s; calls of the wrapped store's get_info in it: %d" % (bool(gi), len(inner)))
     S = summary.Summaries(p)
     N = normal.Normalizer(p, S)
 
